@@ -419,9 +419,9 @@ func (nh *NodeHost) Close() {
 	}
 	plog.Debugf("%s is stopping the engine module", nh.describe())
 	if nh.engine != nil {
+		// the engine and transport fields are not cleared: methods racing with
+		// Close() still go through them after passing the closed check
 		err = firstError(err, nh.engine.close())
-		nh.engine = nil
-		nh.transport = nil
 	}
 	plog.Debugf("%s is stopping the logdb module", nh.describe())
 	if nh.mu.logdb != nil {
